@@ -203,7 +203,8 @@ func requiresV060(spec *Spec) bool {
 func requiresV050(spec *Spec) bool {
 	var edits []*ContainerEdits
 
-	for _, d := range spec.Devices {
+	for i := range spec.Devices {
+		d := &spec.Devices[i]
 		// The v0.5.0 spec allowed device name to start with a digit
 		if len(d.Name) > 0 && '0' <= d.Name[0] && d.Name[0] <= '9' {
 			return true
@@ -227,8 +228,8 @@ func requiresV050(spec *Spec) bool {
 func requiresV040(spec *Spec) bool {
 	var edits []*ContainerEdits
 
-	for _, d := range spec.Devices {
-		edits = append(edits, &d.ContainerEdits)
+	for i := range spec.Devices {
+		edits = append(edits, &spec.Devices[i].ContainerEdits)
 	}
 
 	edits = append(edits, &spec.ContainerEdits)
